@@ -3244,12 +3244,14 @@ theorem handlePubrec_hk (e : Engine) (a : Ack) : HK e (e.handlePubrec a).1 := by
         rw [hp] at hbranch
         split
         · split
+          · exact HK.refl _
           · split
-            · exact HK.refl _
-            · apply completeSuccess_hk
-              intro o' ho' _
-              rw [ho] at ho'; cases ho'; rw [hp]; rfl
-          · exact hbranch
+            · split
+              · exact HK.refl _
+              · apply completeSuccess_hk
+                intro o' ho' _
+                rw [ho] at ho'; cases ho'; rw [hp]; rfl
+            · exact hbranch
         · exact HK.refl _
 
 theorem HK.inv {e e' : Engine} (hk : HK e e') (hinv : Inv e) (hnd : e.state ≠ .disconnected) : Inv e' ∧ e'.state ≠ .disconnected := by
